@@ -128,6 +128,7 @@ bool File::open(const String& name, File::OpenMode mode)
 			(mode==APPEND)? STR_PREFIX("at"):
 			STR_PREFIX("rt+");
 	}
+	close(); // an object that is already open: flush and close that handle (it was leaked with its unwritten bytes), forget the cached info of the previous file
 	_file = fopenX(name, fopen_mode);
 
 	_path = name;
